@@ -465,12 +465,12 @@ prop(
 
 prop(
     "C02",
-    ["LolHtml.Thm.C02_Chunk", "LolHtml.Thm.C02_Final", "LolHtml.Thm.C02_Removal", "LolHtml.Thm.C02_RemovalFinal"],
+    ["LolHtml.Thm.C02_Chunk", "LolHtml.Thm.C02_Final", "LolHtml.Thm.C02_Removal", "LolHtml.Thm.C02_RemovalFinal", "LolHtml.Thm.C02_RealClosed"],
     [{"lane": "lex", "n_quick": 4000, "n_thorough": 200000},
      {"lane": "full", "n_quick": 2000, "n_thorough": 40000},
      {"lane": "pass", "n_quick": 2000, "n_thorough": 40000, "impl_only": True}],
     LEX_RULE + "; oracle: every chunked run is compared with the single-write run (result, canonical event log with absolute ranges, output); lane pass: text nodes seen by a text handler under every encoding must not depend on the chunking",
-    ["whole-run invariance (C02_chunk_invariance, C02_chunk_vs_single) is proved for the controller class TextBlind: an equivalence E on controller states respected by all operations, tokens observed in absolute form, text chunks never fail / never switch encoding / serialise to themselves / are splittable up to E (text-ignoring controllers, constant-flag observers, a byte counter that does observe text, and the lane's scripted controller with failAt = 0 are instances), and shouldEmit always true; content REMOVAL is covered by the class TextBlindR (Thm/C02_Removal: handle_start_tag, the aux-info continuation and non-tag tokens keep should_emit_content, handle_end_tag may only turn it on, tag tokens may change it arbitrarily) — an emission discipline the TransformController trait does not document but the real controller satisfies. The real controller model fullCtl (any selectors; element / comment / doctype / end-tag / document-end handlers with arbitrary mutating or failing scripts, NO text handlers) is an instance (C02_real_class), giving C02_real / C09_real: the rewritten OUTPUT of the whole rewriter model is the same for every chunking — with ONE hypothesis left, Clean of the runs involved (C02_real_final, C09_real_final). The run hypothesis ResumeAtEndTag (the re-lexed tag after an end-tag hint is that end tag; the flush watermark is valid while emission is off) is a THEOREM on every chunking for every controller with the emission discipline whose panics never carry the guard's site string (C02_resumeAtEndTag_all; for the real controller C02_resumeAtEndTag_real, via a simulation with a 'cleaned' controller to which C06_relex_end_tag and inv's parse_post apply); for controllers that never return panic-class errors the final forms need only 'no memory-limit error'. For fullCtl the panic half of Clean would follow from C15 at the real controller, which is open (see C15)",
+    ["whole-run invariance (C02_chunk_invariance, C02_chunk_vs_single) is proved for the controller class TextBlind: an equivalence E on controller states respected by all operations, tokens observed in absolute form, text chunks never fail / never switch encoding / serialise to themselves / are splittable up to E (text-ignoring controllers, constant-flag observers, a byte counter that does observe text, and the lane's scripted controller with failAt = 0 are instances), and shouldEmit always true; content REMOVAL is covered by the class TextBlindR (Thm/C02_Removal: handle_start_tag, the aux-info continuation and non-tag tokens keep should_emit_content, handle_end_tag may only turn it on, tag tokens may change it arbitrarily) — an emission discipline the TransformController trait does not document but the real controller satisfies. The real controller model fullCtl (any selectors; element / comment / doctype / end-tag / document-end handlers with arbitrary mutating or failing scripts, NO text handlers) is an instance (C02_real_class), giving C02_real / C09_real: the rewritten OUTPUT of the whole rewriter model is the same for every chunking — with ONE hypothesis left, Clean of the runs involved (C02_real_final, C09_real_final). The run hypothesis ResumeAtEndTag (the re-lexed tag after an end-tag hint is that end tag; the flush watermark is valid while emission is off) is a THEOREM on every chunking for every controller with the emission discipline whose panics never carry the guard's site string (C02_resumeAtEndTag_all; for the real controller C02_resumeAtEndTag_real, via a simulation with a 'cleaned' controller to which C06_relex_end_tag and inv's parse_post apply); for controllers that never return panic-class errors the final forms need only 'no memory-limit error'. For fullCtl the panic half of Clean is discharged by Full_no_panic (Thm/Full15): C02_real_closed (Thm/C02_RealClosed) — for every configuration without text handlers, any two chunkings of a document give the same outcome and on success byte-identical rewritten OUTPUT, assuming only that no call hits the memory limit",
      "the two chunked runs and the single-write run must be Clean: no panic-class result (C15_no_panic_full shows they cannot occur) and no memory-limit error (the limit is chunk-dependent by nature); chunk lists non-empty",
      "handler-visible TEXT under non-UTF-8 encodings (decoder state across writes) is covered by lanes pass / enc and C13's decoder theorems, not by this theorem", MODEL_SCOPE],
     level_text=("Lean 4 theorems for any table satisfying the decidable side-condition WfChunk (a forward dataflow analysis of "
@@ -490,7 +490,7 @@ prop(
                 "class TextBlindR, the real controller model as an instance (C02_real, C09_real: rewriting output independent of "
                 "the chunking for configurations without text handlers), ResumeAtEndTag discharged for every controller with the "
                 "emission discipline incl. the real one (C02_resumeAtEndTag_all/_real): C02_real_final / C09_real_final assume "
-                "only that no call returns a panic-class or memory-limit error."),
+                "only that no call returns a panic-class or memory-limit error, and C02_real_closed (with Full_no_panic) only the latter."),
     level_note="Trusted: Lean kernel; DSL translator; the core model (lane lex).",
     technique="Lean 4 proof (simulation between a run on a slice and a run on the whole document: step, one cut, dispatcher instance, induction over chunk lists) + correspondence lane + chunked-vs-single oracle",
     design_ref="DESIGN.md section 4 C02",
